@@ -677,7 +677,7 @@ def check_C11(tier, only):
     cov = ek_part(out, 'C11', tier, [('incrate', h) for h in inc] + [('ext', h) for h in ext], only,
                   ['cache level (in-crate): every history of <= %d calls of Cache::get_or_insert_with_{f64,d64,d2_64,hd64,hd364} with symbolic method, symbolic Derivative keys (2 components) and an oracle of arbitrary f64 '
                    'bit patterns returns bitwise the oracle value of the requested key; also across a clone taken between calls' % (3 if tier == 'thorough' else 2),
-                   'getter level (Kani): for 2 (quick) / all 56 (thorough) ordered pairs (h, g) of the 8 scalar residual getters (pairs involving the component-indexed getters dp_dni, dmu_dni, mu, dmu_dt did not finish in 50 min and are not run): g evaluated after h on the same state equals the closed form (one-monomial model A = V^3 T^3 N0^2 N1^2, concrete component indices: the solver decides the compiled plumbing, not the values)',
+                   'getter level (Kani, thorough tier only: one pair costs 7-30 min and 17-21 GB): for all 56 ordered pairs (h, g) of the 8 scalar residual getters (pairs involving the component-indexed getters dp_dni, dmu_dni, mu, dmu_dt did not finish in 50 min and are not run): g evaluated after h on the same state equals the closed form (one-monomial model A = V^3 T^3 N0^2 N1^2, concrete component indices: the solver decides the compiled plumbing, not the values)',
                    'getter level (E-M getter map): every derivative getter of residual_properties.rs / properties.rs reduces on its MIR to sel(c, ideal, sign * R[key]) where R[key] is the keyed cache lookup get_or_compute_derivative_residual: no getter reads or writes the cache in any other way (18 getters, symbolic selector and component indices, z3)',
                    'thread schedules are not covered (Kani does not model concurrency): not claimed'],
                   timeout=7200 if tier == 'thorough' else 2400)
